@@ -187,6 +187,12 @@ func (in *c16Inst) Menu(nd mc.Node, depth int) []rBlock {
 		{Dt: 1, Ops: []rOp{{Kind: "newvoter", Who: a, Var: "forged-blsproof"}}},
 		{Dt: 1, Ops: []rOp{{Kind: "newvoter", Who: a, Var: "wrong-blskey"}}},
 		{Dt: 1, Ops: []rOp{{Kind: "newvoter", Who: a, Var: "other-epoch"}}},
+		{Dt: 1, Ops: []rOp{{Kind: "newvoter", Who: a, Var: "bls-proof-of-previous-epoch"}}},
+		{Dt: 1, Ops: []rOp{{Kind: "newvoter", Who: a, Var: "tx-proof-of-previous-epoch"}}},
+		{Dt: 1, Ops: []rOp{{Kind: "newvoter", Who: a, Var: "bls-proof-only:other-chain"}}},
+		{Dt: 1, Ops: []rOp{{Kind: "newvoter", Who: a, Var: "bls-proof-only:other-height"}}},
+		{Dt: 1, Ops: []rOp{{Kind: "newvoter", Who: a, Var: "bls-proof-only:other-proposer"}}},
+		{Dt: 1, Ops: []rOp{{Kind: "newvoter", Who: a, Var: "bls-proof-only:next-epoch"}}},
 		{Dt: 1, Ops: []rOp{{Kind: "newvoter", Who: a, Var: "other-chain"}}},
 		{Dt: 1, Ops: []rOp{{Kind: "newvoter", Who: a, Var: "other-height"}}},
 		{Dt: 1, Ops: []rOp{{Kind: "newvoter", Who: a, Var: "other-proposer-signed"}}},
@@ -265,12 +271,44 @@ func (in *c16Inst) newVoterMsg(s *rSnap, chainID string, who int, variant string
 	voteKeyHash := sha256.Sum256(bls.PK)
 	req := relayertypes.NewOnBoardingVoterRequest(height, m.Addr(), voteKeyHash[:])
 	sigMsg := relayertypes.VoteSignDoc(req.MethodName(), chainID, signedProposer, 0, epoch, req.SignDoc())
+	// one of the two proofs made in the previous epoch (a proof that was genuine then), the other fresh
+	prevMsg := relayertypes.VoteSignDoc(req.MethodName(), chainID, signedProposer, 0, epoch-1, req.SignDoc())
+	txDoc, blsDoc := sigMsg, sigMsg
+	switch variant {
+	case "bls-proof-of-previous-epoch":
+		blsDoc = prevMsg
+	case "tx-proof-of-previous-epoch":
+		txDoc = prevMsg
+	}
+	// exactly one of the two proofs made for another chain / registration height / proposer, the other
+	// genuine: each proof on its own has to be bound to the whole context
+	if i := strings.Index(variant, "-proof-only:"); i > 0 {
+		otherReq := relayertypes.NewOnBoardingVoterRequest(height+1, m.Addr(), voteKeyHash[:])
+		var doc []byte
+		switch variant[i+len("-proof-only:"):] {
+		case "other-chain":
+			doc = relayertypes.VoteSignDoc(req.MethodName(), chainID+"-x", signedProposer, 0, epoch, req.SignDoc())
+		case "other-height":
+			doc = relayertypes.VoteSignDoc(otherReq.MethodName(), chainID, signedProposer, 0, epoch, otherReq.SignDoc())
+		case "other-proposer":
+			doc = relayertypes.VoteSignDoc(req.MethodName(), chainID, in.members[len(in.members)-1].AddrStr(), 0, epoch, req.SignDoc())
+		case "next-epoch":
+			doc = relayertypes.VoteSignDoc(req.MethodName(), chainID, signedProposer, 0, epoch+1, req.SignDoc())
+		default:
+			panic("newvoter variant " + variant)
+		}
+		if variant[:i] == "bls" {
+			blsDoc = doc
+		} else {
+			txDoc = doc
+		}
+	}
 	return &relayertypes.MsgNewVoterRequest{
 		Proposer:         proposer,
 		VoterBlsKey:      bls.PK,
 		VoterTxKey:       txKey.Pub().Key,
-		VoterTxKeyProof:  txSigner.SignECDSA64(sigMsg),
-		VoterBlsKeyProof: blsSigner.Sign(sigMsg),
+		VoterTxKeyProof:  txSigner.SignECDSA64(txDoc),
+		VoterBlsKeyProof: blsSigner.Sign(blsDoc),
 	}, genuine
 }
 
@@ -344,6 +382,11 @@ func (in *c16Inst) Step(nd mc.Node, b rBlock, path []rBlock, silent bool) mc.Nod
 				outcome("newvoter-accepted")
 			} else {
 				outcome("newvoter-rejected:" + o.Var)
+				if !silent {
+					if rec, has := cur.Voters[in.members[o.Who].AddrStr()]; has && rec.Status == relayertypes.VOTER_STATUS_PENDING {
+						r.Reason("newvoter:"+o.Var+" (voter pending)", err.Error())
+					}
+				}
 			}
 			if (err == nil) != genuine {
 				viol("newvoter-verdict:"+o.Var, fmt.Sprintf("NewVoter(%s) accepted=%v, reference genuine-and-pending=%v (err=%v)", o.Var, err == nil, genuine, err))
